@@ -130,10 +130,7 @@ func (h *Heap) baseFacts(name string, arr Term, top Term) {
 		if strings.HasPrefix(srt, "(Array Int (Array ") {
 			parts := splitSortArgs(srt[len("(Array Int ") : len(srt)-1])
 			if len(parts) == 2 {
-				h.sc.n++
-				k := fmt.Sprintf("hk?%d", h.sc.n)
-				sel := fmt.Sprintf("(select (select %s 0) %s)", arr.S, k)
-				h.sc.Assume(T(fmt.Sprintf("(forall ((%s %s)) (! (not %s) :pattern (%s)))", k, parts[0], sel, sel), SBool))
+				h.sc.Assume(T(fmt.Sprintf("(= (select %s 0) ((as const (Array %s Bool)) false))", arr.S, parts[0]), SBool))
 			}
 		}
 		return
